@@ -2484,6 +2484,17 @@ coap_dtls_receive(coap_session_t *c_session, const uint8_t *data,
       c_session->sock.lfunc[COAP_LAYER_TLS].l_establish(c_session);
     }
     ret = gnutls_record_recv(g_env->g_session, pdu, (int)sizeof(pdu));
+    if (ret == GNUTLS_E_AGAIN && ssl_data->pdu_len) {
+      /*
+       * GnuTLS first worked off records it still had buffered (for example a
+       * retransmitted ChangeCipherSpec) and has not looked at this datagram
+       * yet - which will be gone when this function returns.
+       */
+      int retries = 8;
+
+      while (ret == GNUTLS_E_AGAIN && ssl_data->pdu_len && retries--)
+        ret = gnutls_record_recv(g_env->g_session, pdu, (int)sizeof(pdu));
+    }
     if (ret > 0) {
       return coap_handle_dgram(c_session->context, c_session, pdu, (size_t)ret);
     } else if (ret == 0) {
